@@ -2,7 +2,7 @@
    gave to the real functions and reports the indices of cases whose observed result differs
    (trees compared after [norm]: key-sorted). *)
 From Coq Require Import List String Bool Arith ZArith.
-From Helm Require Import Common.Strs Values.Tree Values.Merge Values.Coalesce.
+From Helm Require Import Common.Strs Values.Tree Values.Merge Values.Coalesce Values.Strvals Values.Options.
 Import ListNotations.
 
 Inductive res := ROk (v : val) | RErr.
@@ -16,11 +16,16 @@ Definition res_eqb (a b : res) : bool :=
 
 Inductive capi := ACoalesceValues | AMergeValues | AToRenderValues.
 
+Inductive pfn := PInto | PIntoString | PJson | PLiteral | PFile.
+
 Inductive case :=
 | CFiles (files : list vmap) (obs : res)                          (* Options.MergeValues, -f only *)
 | CMergeMaps (a b : vmap) (obs : res)                             (* loader.MergeMaps *)
 | CCoalesce (api : capi) (c : chart) (vals : vmap) (obs : res)    (* CoalesceValues / MergeValues / ToRenderValues *)
-| CTables (merge : bool) (dst src : vmap) (obs : res).            (* CoalesceTables / MergeTables *)
+| CTables (merge : bool) (dst src : vmap) (obs : res)             (* CoalesceTables / MergeTables *)
+| COpts (o : options) (obs : res)                                 (* Options.MergeValues, all flag families *)
+| CParse (fn : pfn) (s : string) (dest : vmap) (files : list (string * string))
+         (jdec : list (nat * (val * nat))) (obs : res).           (* strvals.ParseInto & co; obs = dest afterwards *)
 
 Definition of_opt (o : option vmap) : res := match o with Some m => ROk (VMap m) | None => RErr end.
 
@@ -32,11 +37,20 @@ Definition model (c : case) : res :=
   | CCoalesce AMergeValues ch vals _ => of_opt (merge_values_root ch vals)
   | CCoalesce AToRenderValues ch vals _ => of_opt (to_render_values ch vals)
   | CTables merge dst src _ => ROk (VMap (coalesce_tables merge dst src))
+  | COpts o _ => of_opt (merge_values o)
+  | CParse fn s dest files jdec _ =>
+      of_opt (of_pres (match fn with
+                       | PInto => parse_into s dest
+                       | PIntoString => parse_into_string s dest
+                       | PJson => parse_json jdec s dest
+                       | PLiteral => parse_literal_into s dest
+                       | PFile => parse_into_file files s dest
+                       end))
   end.
 
 Definition observed (c : case) : res :=
   match c with
-  | CFiles _ o | CMergeMaps _ _ o | CCoalesce _ _ _ o | CTables _ _ _ o => o
+  | CFiles _ o | CMergeMaps _ _ o | CCoalesce _ _ _ o | CTables _ _ _ o | COpts _ o | CParse _ _ _ _ _ o => o
   end.
 
 Definition case_ok (c : case) : bool := res_eqb (model c) (observed c).
